@@ -8,7 +8,8 @@
 From Coq Require Import NArith ZArith List Bool.
 From F8 Require Import Codec.Bytes Codec.Meta Codec.Extract Codec.Decode Codec.Encode Codec.Render Codec.Example
                        C11.Copy C11.Spec_C11 C11.Hyp C11.Examples C11.WitnessProofs
-                       C11.CopyProofs C11.CountProofs C11.CloneProofs C11.MoveProofs.
+                       C11.CopyProofs C11.CountProofs C11.CloneProofs C11.MoveProofs
+                       C11.Precision C11.PrecisionProofs.
 Import ListNotations.
 Local Open Scope N_scope.
 
@@ -38,6 +39,30 @@ Theorem c11_copy_legal_partial : forall s t0, src_ok s t0 = true ->
             (forall c b, mb_encode c s = Ok b -> mb_encode c t = Ok b).
 Proof. exact c11_copy_legal_lemma. Qed.
 Print Assumptions c11_copy_legal_partial.
+
+(* Per-field output state.  A field value of the model is the state of the C++ field object: its
+   text and, for the floating point classes, its output precision (coq/C11/Precision.v: an API-built
+   Field<fp_type>(value, p) is the text "~p~<decimal>", rendered by modp_dtoa at precision p; a field
+   made by the string constructor has the default precision 2).  Every field object of the copy_legal
+   target, at every nesting level, has the (precision, value) state of the corresponding source field:
+   Field::copy() must carry _precision.  (c11_clone_partial and c11_copy_legal_partial hold for every
+   rendering function of the ctx, in particular for render_c11, which depends on that state;
+   move_legal moves the objects themselves.) *)
+Theorem c11_copy_field_state_partial : forall s t0, src_ok s t0 = true ->
+  exists n t, copy_legal false s t0 = Ok (n, t) /\ field_states (obj_of s) = field_states (obj_of t).
+Proof. exact c11_copy_field_state_lemma. Qed.
+Print Assumptions c11_copy_field_state_partial.
+
+(* Non-vacuity for the precision-carrying values: a message with Field<fp_type>(1.23456, 5) in a
+   group element and Field<fp_type>(400.5, 0) in a nested element satisfies clone_ok, its clone encodes
+   to the same bytes under the real float rendering, and those bytes differ from the encoding of the
+   same values at the default precision (a copy that dropped _precision would be seen). *)
+Theorem c11_precision_nonvacuous :
+  clone_ok ex_ctx_p md_list ex_list_p = true /\
+  clone_enc ex_ctx_p ex_list_p = enc_of ex_ctx_p ex_list_p /\ enc_of ex_ctx_p ex_list_p <> [] /\
+  enc_of ex_ctx_p ex_list_p <> enc_of ex_ctx_p ex_list_d.
+Proof. exact c11_precision_nonvacuous_lemma. Qed.
+Print Assumptions c11_precision_nonvacuous.
 
 (* "moving them leaves the target equal to the original source": move_legal of a source satisfying
    move_ok (local_ok + fresh target as above; every present group field has its _groups entry; no
